@@ -40,7 +40,7 @@ RULE = (
     "(RemainingOperations, IsCompleted, ResidualGraphUpdater, Composite), "
     "some abandoned history has >=2 dispatches and h2 has >=3."
 )
-BUDGET = {"quick": 600, "thorough": 2500}
+BUDGET = {"quick": 600, "thorough": 4000}
 ASSUMPTIONS = [
     "both sides are built with the same creation order, so the reset is the only difference",
 ]
